@@ -235,6 +235,8 @@ Definition fit_fleet (w : world) (f : nat) : option nat :=
 Definition fit_ship (w : world) (f : nat) : option nat :=
   match get_fit w f with Some ft => f_ship ft | None => None end.
 
+Definition pysub_eqb (a b : nat * spec) : bool := Nat.eqb (fst a) (fst b) && spec_eqb (snd a) (snd b).
+
 Definition item_is_loaded (w : world) (i : nat) : bool :=
   match get_item w i with
   | Some it => match i_loaded it with Some _ => true | None => false end
@@ -321,7 +323,7 @@ Section Publish.
                               let mid := d_next d in
                               let d := d_set_next d (S mid) in
                               let m := mkMod (b_filter t) (b_extra t) ModDomain_target (b_tgt_attr t)
-                                             (b_op t) (b_aggmode t) bkey (snd ba) in
+                                             (b_op t) (b_aggmode t) bkey (snd ba) 0 in
                               let ef_res := match get_item w i with
                                             | Some it => match item_effect w it e with
                                                          | Some ef => e_resist_attr ef | None => None end
@@ -430,6 +432,9 @@ Section Publish.
           | MEffectsStarted i effs =>
             match gen_specs w i effs false, gen_projectors w i effs with
             | Some specs, Some projs =>
+              (* __subscribe_python_affector_spec *)
+              let d := d_set_pysubs d (fold_left (fun l sp => if Z.eqb (m_py (sp_mod sp)) 0 then l
+                                                              else set_add pysub_eqb l (s, sp)) specs (d_pysubs d)) in
               let (d, ch) :=
                   fold_left (fun (acc : derived * changes) sp =>
                                let (d, ch) := acc in
@@ -486,6 +491,9 @@ Section Publish.
                                    let (d, ch) := force_all d ch items (m_tgt_attr (sp_mod sp)) in
                                    (with_calc d s (fun c => apply_targets c (local_targets w c sp) sp false), ch)
                                  end) specs (d, []) in
+                (* __unsubscribe_python_affector_spec *)
+                let d := d_set_pysubs d (fold_left (fun l sp => if Z.eqb (m_py (sp_mod sp)) 0 then l
+                                                                else set_rm pysub_eqb l (s, sp)) specs (d_pysubs d)) in
                 let d := fold_left (fun d p => with_calc d s (fun c => unregister_projector w c p)) projs d in
                 publish_changes d ch
               end
@@ -690,10 +698,52 @@ Section Publish.
             end
           | _ => d
           end in
+      (* _revise_python_attr_dependents: every delivered message is shown to the subscribed python specs *)
+      let revise_py (d : derived) (s : nat) (m : msg) : derived :=
+          let subs := flat_map (fun (p : nat * spec) => if Nat.eqb (fst p) s then [snd p] else []) (d_pysubs d) in
+          match subs with
+          | [] => d
+          | _ =>
+            let changed_has (ch : changes) (x : nat) (attrs : list Z) : bool :=
+                existsb (fun (p : nat * list Z) => Nat.eqb (fst p) x && existsb (fun a => mem zeqb (snd p) a) attrs) ch in
+            let wants (sp : spec) : bool :=
+                match m with
+                | MItemAdded x | MItemRemoved x =>
+                  Z.eqb (m_py (sp_mod sp)) 2 &&
+                  match get_item w (sp_item sp) with
+                  | Some ai => onat_eqb (i_charge ai) (Some x) &&
+                               match get_item w x with
+                               | Some xi => Z.eqb (i_tid xi) TypeId_nanite_repair_paste
+                               | None => false end
+                  | None => false
+                  end
+                | MAttrsChanged ch =>
+                  if Z.eqb (m_py (sp_mod sp)) 1 then
+                    (match (match item_fit w (sp_item sp) with
+                            | Some pf => match get_fit w pf with Some ft => f_ship ft | None => None end
+                            | None => None end) with
+                     | Some sh => changed_has ch sh [AttrId_mass]
+                     | None => false end)
+                    || changed_has ch (sp_item sp) [AttrId_speed_factor; AttrId_speed_boost_factor]
+                  else if Z.eqb (m_py (sp_mod sp)) 2 then changed_has ch (sp_item sp) [AttrId_charged_armor_dmg_mult]
+                  else false
+                | _ => false
+                end in
+            let (d, ch) :=
+                fold_left (fun (acc : derived * changes) sp =>
+                             let (d, ch) := acc in
+                             if wants sp then
+                               match local_affectees w (calc_of d s) sp with
+                               | None => (dfail d ENoneDeref, ch)
+                               | Some items => force_all d ch items (m_tgt_attr (sp_mod sp))
+                               end
+                             else (d, ch)) subs (d, []) in
+            publish_changes d ch
+          end in
       fold_left (fun d m =>
                    let d := d_set_trace d ((f, m) :: d_trace d) in
                    match fit_solsys w f with
-                   | Some s => handle d s m
+                   | Some s => revise_py (handle d s m) s m
                    | None => d
                    end) msgs d
     end.
